@@ -827,3 +827,297 @@ def scaling_cases(rnd, tier):
         except Exception as ex:
             recs.append(O.raised_record(ex, model=kind, flux=str(P["flux"]), recon=P["recon"], n=P["n"], integrator=cls))
     return recs
+
+
+# ----------------------------------------------------------------------------- C03: uniform and compatible steady states
+def uniform_state(kind, rnd):
+    if kind == "convection":
+        return [rnd.choice([0.0, 1.0, -2.5, 1e-3, 3e4])]
+    if kind == "burgers":
+        return [rnd.choice([1.0, -0.7, 2.5, 1e-2])]
+    if kind == "shallowwater":
+        h = rnd.choice([1.0, 0.3, 7.5, 1e-2, 2e3])
+        fr = rnd.choice([0.0, 0.3, -0.8, 1.7, -2.5])
+        return [h, fr]          # Froude number; velocity set by caller with g
+    rho = rnd.choice([1.0, 0.2, 9.0, 1e-3, 4e2])
+    p = rnd.choice([1.0, 0.3, 12.0, 1e-2, 3e5])
+    mach = rnd.choice([0.0, 0.05, 0.5, -0.7, 0.95, 1.3, -2.2, 3.0])
+    return [rho, mach, p]
+
+
+def matching_bcs(kind, gam, W, rnd):
+    """boundary pairs whose parameters are those of the uniform state W = (rho, u, p) itself (inlet on the upstream side)"""
+    out = [({"type": "per"}, {"type": "per"})]
+    if kind in ("convection", "burgers"):
+        out.append(({"type": "dirichlet", "prim": [W[0]]}, {"type": "dirichlet", "prim": [W[0]]}))
+        return out
+    if kind == "shallowwater":
+        out.append(({"type": "dirichlet", "prim": list(W)}, {"type": "dirichlet", "prim": list(W)}))
+        out.append(({"type": "inf"}, {"type": "inf"}))
+        if W[1] == 0.0:
+            out.append(({"type": "sym"}, {"type": "sym"}))
+        return out
+    rho, u, p = W
+    model = fd.euler.euler1d(gamma=gam)
+    q = model.prim2cons([np.array([rho]), np.array([u]), np.array([p])])
+    ptot = float(model.nameddata("ptot", q)[0])        # the code's own variables (checked under C17)
+    rttot = float(model.nameddata("rttot", q)[0])
+    out.append(({"type": "dirichlet", "prim": [rho, u, p]}, {"type": "dirichlet", "prim": [rho, u, p]}))
+    if u == 0.0:
+        out.append(({"type": "sym"}, {"type": "sym"}))
+        return out
+    mach = abs(u) / math.sqrt(gam * p / rho)
+    if mach < 1.0:
+        ins = [{"type": "insub", "ptot": ptot, "rttot": rttot}, {"type": "insub_cbc", "ptot": ptot, "rttot": rttot}]
+        outs = [{"type": t, "p": p} for t in ("outsub", "outsub_prim", "outsub_qtot", "outsub_rh", "outsub_nrcbc")]
+    else:
+        ins = [{"type": "insup", "ptot": ptot, "rttot": rttot, "p": p}]
+        outs = [{"type": "outsup"}]
+    for bi in ins:
+        for bo in outs:
+            out.append((bi, bo) if u > 0 else (bo, bi))
+    return out
+
+
+def uniform_cases(rnd, tier):
+    recs = []
+    ncase = 150 if tier == "quick" else 2500
+    kinds = list(FLUXES)
+    for c in range(ncase):
+        kind = kinds[c % len(kinds)]
+        flux = rnd.choice(FLUXES[kind])
+        n = rnd.choice([1, 2, 3, 6, 17])
+        m = K1.random_mesh(rnd, n)
+        n = m.ncell
+        recon = rnd.choice(fd.ALL_RECONS)
+        W = uniform_state(kind, rnd)
+        mkw = {}
+        gam = 1.4
+        if kind == "shallowwater":
+            mkw["g"] = rnd.choice([9.81, 1.0])
+            W = [W[0], W[1] * math.sqrt(mkw["g"] * W[0])]
+        elif kind in ("euler1d", "nozzle"):
+            gam = rnd.choice([1.4, 5.0 / 3.0, 1.2])
+            mkw["gamma"] = gam
+            W = [W[0], W[1] * math.sqrt(gam * W[2] / W[0]), W[2]]
+            if kind == "nozzle":
+                if c % 2 == 0:
+                    W[1] = 0.0          # a nozzle at rest is preserved for ANY section law
+                    mkw["section"] = rnd.choice([lambda x: 1.0 + 0.5 * x, lambda x: 2.0 - np.sin(3 * x) ** 2, lambda x: np.exp(-x)])
+                else:
+                    mkw["section"] = lambda x: 3.0 + 0.0 * x
+        model = make_model(kind, rnd, **mkw)
+        cands = matching_bcs(kind if kind != "nozzle" else "euler1d", gam, W, rnd)
+        bcl, bcr = rnd.choice(cands if rnd.random() < 0.15 or len(cands) <= 2 else cands[2:])
+        cls = rnd.choice(EXPLICIT + IMPLICIT)
+        implicit = cls in IMPLICIT
+        dtlocal = rnd.random() < 0.4
+        try:
+            disc = fd.modeldisc.fvm(model, m, fd.recon(recon), numflux=flux, bcL=bcl, bcR=bcr)
+            f0 = field_from_prim(model, m, [np.full(n, w) for w in W])
+            with np.errstate(all="ignore"):
+                R = [np.array(r) for r in disc.rhs(f0)]
+            # residual scale: |physical flux| / dx
+            if kind == "convection":
+                pf = [abs(mkw.get("a", model.convcoef) * W[0])]
+            elif kind == "burgers":
+                pf = [W[0] ** 2 / 2]
+            elif kind == "shallowwater":
+                cs = math.sqrt(mkw["g"] * W[0])
+                pf = [W[0] * (abs(W[1]) + cs), W[0] * (abs(W[1]) + cs) ** 2]
+            else:
+                cs = math.sqrt(gam * W[2] / W[0])
+                vm = abs(W[1]) + cs
+                pf = [W[0] * vm, W[0] * vm * vm + W[2], W[0] * vm * (vm * vm + cs * cs / (gam - 1.0))]
+            vol = np.asarray(m.vol())
+            unif = 0
+            for q in range(model.neq):
+                unif = max(unif, max_ulps(R[q] * vol, 0.0 * vol, pf[q] if pf[q] > 0 else 1.0))
+            nit = rnd.choice([1, 5, 20]) if tier != "quick" else rnd.choice([1, 5])
+            cfl = 0.4 if not implicit else rnd.choice([0.5, 3.0])
+            if kind == "burgers" or (kind == "convection"):
+                pass
+            f1 = integrate(cls, m, disc, f0, cfl, nit, dtlocal=dtlocal)
+            us = 0
+            for q in range(model.neq):
+                sc = max(float(np.max(np.abs(f0.data[q]))), pf[q] / max(abs(W[1]) + 1e-300 if len(W) > 1 else 1.0, 1e-300) * 0 + 0.0)
+                sc = max(sc, float(np.max(np.abs(f0.data[-1]))) if kind not in ("convection", "burgers") else sc, 1e-300)
+                if implicit:
+                    us = max(us, solver_tok(max_ulps(f1.data[q], f0.data[q], sc, core.SOLVER_BITS)) * 256)
+                else:
+                    us = max(us, max_ulps(f1.data[q], f0.data[q], sc) // max(1, nit))
+            recs.append(tok(unif=unif, unifsolve=min(us, core.ULP_CAP), implicit=1 if implicit else 0, model=kind, flux=str(flux),
+                            recon=recon, n=n, integrator=cls, bcl=bcl["type"], bcr=bcr["type"], dtlocal=1 if dtlocal else 0,
+                            state=[repr(float(w)) for w in W]))
+        except Exception as ex:
+            recs.append(O.raised_record(ex, model=kind, flux=str(flux), recon=recon, n=n, integrator=cls, bcl=bcl["type"], bcr=bcr["type"]))
+    return recs
+
+
+def uniform2d_cases(rnd, tier):
+    recs = []
+    ncase = 40 if tier == "quick" else 500
+    for c in range(ncase):
+        nx, ny = rnd.choice([(1, 1), (2, 3), (4, 2), (5, 5)])
+        flux = rnd.choice(["centered", "hlle"])
+        recon = rnd.choice([("e1", None), ("k", -1.0), ("k", 1.0 / 3.0), ("k", 1.0)])
+        gam = rnd.choice([1.4, 5.0 / 3.0])
+        rho, p = rnd.choice([1.0, 0.3, 40.0]), rnd.choice([1.0, 0.2, 1e3])
+        cs = math.sqrt(gam * p / rho)
+        mach = rnd.choice([0.0, 0.4, 0.9, 2.0])
+        ang = rnd.choice([0.0, 30.0, 90.0, 135.0, -60.0, 180.0])
+        ux, uy = mach * cs * math.cos(math.radians(ang)), mach * cs * math.sin(math.radians(ang))
+        model0 = fd.euler.euler2d(gamma=gam)
+        q = model0.prim2cons([np.array([rho]), np.array([[ux], [uy]]), np.array([p])])
+        per = {"type": "per"}
+        bcl = dict(left=per, right=per, bottom=per, top=per)
+        kindbc = "per"
+        if mach == 0.0 and c % 2:
+            bcl = {t: {"type": "sym"} for t in bcl}
+            kindbc = "sym"
+        elif mach > 1.0 and c % 2 and ang in (0.0, 30.0, -60.0):
+            # supersonic inflow from the left at an angle: left = insup(angle), other sides supersonic outflow / periodic
+            ptot = float(model0.nameddata("ptot", q)[0])
+            rttot = float(model0.nameddata("rttot", q)[0])
+            bcl = dict(left={"type": "insup", "ptot": ptot, "rttot": rttot, "p": p, "angle": ang}, right={"type": "outsup"},
+                       bottom=per, top=per)
+            kindbc = "insup_angle"
+        elif 0.0 < mach < 1.0 and ang == 0.0 and c % 2:
+            ptot = float(model0.nameddata("ptot", q)[0])
+            rttot = float(model0.nameddata("rttot", q)[0])
+            bcl = dict(left={"type": "insub", "ptot": ptot, "rttot": rttot}, right={"type": "outsub", "p": p},
+                       bottom={"type": "sym"}, top={"type": "sym"})
+            kindbc = "duct"
+        try:
+            model, m, disc = euler2d_problem(rnd, nx, ny, flux, recon, bcl, gamma=gam)
+            n = nx * ny
+            f0 = cons2d(model, m, [np.full(n, rho), np.vstack([np.full(n, ux), np.full(n, uy)]), np.full(n, p)])
+            with np.errstate(all="ignore"):
+                R = disc.rhs(f0)
+            vm = mach * cs + cs
+            h = min(m.dx(), m.dy())
+            pf = [rho * vm, rho * vm * vm + p, rho * vm * (vm * vm + cs * cs / (gam - 1.0))]
+            unif = max(max_ulps(np.asarray(R[0]) * h, 0.0 * np.asarray(R[0]), pf[0]),
+                       max_ulps(np.asarray(R[1]) * h, 0.0 * np.asarray(R[1]), pf[1]),
+                       max_ulps(np.asarray(R[2]) * h, 0.0 * np.asarray(R[2]), pf[2]))
+            cls = rnd.choice(["explicit", "rk2", "rk3ssp", "rk4", "lsrk26bb"])
+            nit = rnd.choice([1, 6])
+            f1 = integrate(cls, m, disc, f0, 0.4, nit, dtlocal=rnd.random() < 0.3)
+            us = 0
+            for qd in range(3):
+                sc = float(np.max(np.abs(f0.data[2]))) if qd else float(np.max(np.abs(f0.data[0])))
+                us = max(us, max_ulps(f1.data[qd], f0.data[qd], max(sc, rho * vm)) // nit)
+            recs.append(tok2(unif=unif, unifsolve=us, nx=nx, ny=ny, flux=flux, recon=str(recon), bc=kindbc, mach=mach, angle=ang,
+                             integrator=cls))
+        except Exception as ex:
+            recs.append(O.raised_record(ex, nx=nx, ny=ny, flux=flux, recon=str(recon), bc=kindbc))
+    return recs
+
+
+# ----------------------------------------------------------------------------- C19: source terms
+def source_cases(rnd, tier):
+    """rhs_with - rhs_without = source_i(x, Q) on equation i (0 elsewhere); callables get (cell centres, conservative data);
+    nozzle: user sources are ADDED to the geometric ones, which are -g (rho u, rho u^2, rho u H), zero for a constant section"""
+    recs = []
+    ncase = 80 if tier == "quick" else 1000
+    kinds = ["euler1d", "nozzle", "shallowwater"]
+    for c in range(ncase):
+        kind = kinds[c % 3]
+        neq = 2 if kind == "shallowwater" else 3
+        n = rnd.choice([1, 2, 4, 9, 20])
+        m = K1.random_mesh(rnd, n)
+        n = m.ncell
+        recon = rnd.choice(fd.ALL_RECONS)
+        flux = rnd.choice(FLUXES[kind])
+        subset = [rnd.random() < 0.6 for _ in range(neq)]
+        calls = []
+        coefs = [rnd.choice([0.5, -2.0, 1.0, 3.25]) for _ in range(neq)]
+        shape = rnd.choice(["state", "position", "const"])
+
+        def mk(i):
+            def src(x, q):
+                calls.append((i, np.array(x, dtype=float).copy(), [np.array(d, dtype=float).copy() for d in q]))
+                if shape == "state":
+                    return coefs[i] * q[(i + 1) % neq] * (1.0 + x)
+                if shape == "position":
+                    return coefs[i] * np.sin(x) + 0.0 * q[0]
+                return coefs[i] + 0.0 * x
+            return src
+        srcs = [mk(i) if subset[i] else None for i in range(neq)]
+        bcl, bcr = rnd.choice([({"type": "per"}, {"type": "per"}), ({"type": "sym"}, {"type": "sym"})])
+        section = None
+        try:
+            if kind == "shallowwater":
+                g = rnd.choice([9.81, 1.0])
+                mw = fd.sw.shallowwater1d(g=g, source=srcs)
+                m0 = fd.sw.shallowwater1d(g=g)
+            elif kind == "euler1d":
+                gam = rnd.choice([1.4, 5.0 / 3.0])
+                mw = fd.euler.euler1d(gamma=gam, source=srcs)
+                m0 = fd.euler.euler1d(gamma=gam)
+            else:
+                gam = rnd.choice([1.4, 5.0 / 3.0])
+                a0, a1 = rnd.choice([(1.0, 0.0), (1.0, 0.5), (2.0, -0.25), (0.5, 1.0)])
+                section = (a0, a1)
+                law = (lambda a0_, a1_: (lambda x: a0_ + a1_ * x))(a0, a1)
+                mw = fd.euler.nozzle(law, gamma=gam, source=srcs)
+                m0 = fd.euler.nozzle(law, gamma=gam)
+            dw = fd.modeldisc.fvm(mw, m, fd.recon(recon), numflux=flux, bcL=bcl, bcR=bcr)
+            d0 = fd.modeldisc.fvm(m0, m, fd.recon(recon), numflux=flux, bcL=bcl, bcR=bcr)
+            prim = random_prim(kind if kind != "nozzle" else "euler1d", rnd, n, mild=not rough_ok(recon))
+            if section is not None and section[1] != 0 and np.min(section[0] + section[1] * np.asarray(m.xf)) <= 0.05:
+                continue        # the section must stay positive on the mesh
+            fw = field_from_prim(mw, m, prim)
+            f0 = field_from_prim(m0, m, prim)
+            with np.errstate(all="ignore"):
+                Rw = [np.array(r, dtype=float) for r in dw.rhs(fw)]
+                ncalls = len(calls)
+                R0 = [np.array(r, dtype=float) for r in d0.rhs(f0)]
+            worst = 0
+            xc = np.asarray(m.centers(), dtype=float)
+            for i in range(neq):
+                want = np.zeros(n)
+                if subset[i]:
+                    want = np.asarray(srcs[i](xc, [np.array(d) for d in fw.data]), dtype=float)
+                for k in range(n):
+                    sc = abs(R0[i][k]) + abs(want[k]) + abs(Rw[i][k])
+                    if sc == 0:
+                        continue
+                    worst = max(worst, core.ulps(F(float(Rw[i][k])) - F(float(R0[i][k])), F(float(want[k])), sc))
+            args = 1
+            seen = [cl for cl in calls[:ncalls]]
+            if len(seen) != sum(subset):
+                args = 0
+            for (i, x, q) in seen:
+                if not (np.array_equal(x, xc) and all(np.array_equal(a, b) for a, b in zip(q, fw.data))):
+                    args = 0
+            rec = dict(kind="src", diff=worst, tol=8, args=args, model=kind, flux=str(flux), recon=recon, n=n,
+                       subset=[int(b) for b in subset], shape=shape, geom=0)
+            recs.append(rec)
+            # geometric source of the nozzle alone against its definition, in exact arithmetic (linear section laws)
+            if kind == "nozzle":
+                me = fd.euler.euler1d(gamma=gam)
+                de = fd.modeldisc.fvm(me, m, fd.recon(recon), numflux=flux, bcL=bcl, bcR=bcr)
+                fe = field_from_prim(me, m, prim)
+                with np.errstate(all="ignore"):
+                    Re = [np.array(r, dtype=float) for r in de.rhs(fe)]
+                xf = [F(float(x)) for x in m.xf]
+                a0f, a1f = F(section[0]), F(section[1])
+                G = F(gam)
+                gworst = 0
+                for k in range(n):
+                    xcq = F(float(xc[k]))
+                    gterm = ((a0f + a1f * xf[k + 1]) - (a0f + a1f * xf[k])) / ((xf[k + 1] - xf[k]) * (a0f + a1f * xcq))
+                    rho, mom, en = (F(float(fe.data[j][k])) for j in range(3))
+                    ec = mom * mom / rho / 2
+                    want = [-gterm * mom, -gterm * mom * mom / rho, -gterm * mom * ((en - ec) * G + ec) / rho]
+                    for j in range(3):
+                        sc = abs(float(want[j])) + abs(Re[j][k]) + abs(R0[j][k])
+                        if sc == 0:
+                            continue
+                        gworst = max(gworst, core.ulps(F(float(R0[j][k])) - F(float(Re[j][k])), want[j], sc))
+                recs.append(dict(kind="src", diff=gworst, tol=2 ** 22, args=1, model="nozzle_geometric", flux=str(flux), recon=recon, n=n,
+                                 subset=[], shape="section a0=%s a1=%s" % section, geom=1))
+        except Exception as ex:
+            recs.append(O.raised_record(ex, model=kind, flux=str(flux), recon=recon, n=n, subset=[int(b) for b in subset]))
+    return recs
